@@ -29,6 +29,19 @@ def run_shard(prop: str, tier: str, seed: int, shard: tuple[int, int], replay: s
         mod.run(ctx)
     except core.rt.Inconclusive as e:
         ctx.inconc(str(e))
+    except Exception as e:  # noqa: BLE001
+        # Safety net. Every workload step that may legitimately be rejected is guarded inside the checks, so an
+        # exception arriving here left a step the harness expects to be accepted. An error class DEFINED BY THE
+        # LIBRARY (GraphConfigError, MissingInputError, ...) means the library now rejects a valid program:
+        # a violation with the traceback as witness. Anything else may be the harness's own fault (a private
+        # name that moved): inconclusive, never "held" and never an alarm.
+        import traceback
+
+        tb = traceback.format_exc()
+        if (type(e).__module__ or "").startswith("hypergraph"):
+            ctx.violation(f"{prop}:library-rejected-valid-step:{type(e).__name__}", f"the library raised {type(e).__name__} in a workload step that must be accepted: {str(e)[:300]}", {"traceback": tb[-4000:]})
+        else:
+            ctx.inconc(f"harness stopped by {type(e).__name__}: {str(e)[:200]} :: {tb[-1500:]}")
     res = ctx.result()
     res["assumptions"] = getattr(mod, "ASSUMPTIONS", [])
     return res
